@@ -2,6 +2,9 @@
 # For every seeded change: apply it to the repository, run every property's quick check, record
 # which checks report a violation (and whether with a failing input), undo it.
 # Writes seeded/MATRIX.tsv (or $MATRIX_OUT).
+# Regression test of the checks: MATRIX_TARGET_ONLY=1 MATRIX_MIRROR=/tmp/mx MATRIX_SKIP_PROOF=1
+#   MATRIX_OUT=/tmp/selftest.tsv tools/matrix.sh; every M-* row must say VIOLATION-with-input,
+#   every B* row quiet.
 #
 # Default: works on /repo and /verif (nothing else may use /repo meanwhile). With MATRIX_MIRROR=<dir>
 # it works on a throw-away mirror instead (<dir>/repo = clone of /repo's HEAD, <dir>/verif = copy of
@@ -22,7 +25,11 @@ echo -e "mutant\ttarget\tcheck\tresult" > $out
 for d in ${MATRIX_ONLY:-seeded/M-* seeded/B?}; do
   m=$(basename $d); target=$(python3 -c "import json;print(json.load(open('$d/meta.json')).get('property','benign'))")
   git -C $REPO checkout -q -- . ; git -C $REPO apply $VERIF/$d/patch.diff || { echo -e "$m\t$target\t-\tPATCH-FAILED" >> $out; continue; }
-  for p in ${MATRIX_CHECKS:-C01 C02 C03 C04 C05 C06 C07 C08 C09 C10 C11 C12 C13 C14 C15 C16 C17 C18 C19 C20}; do
+  checks=${MATRIX_CHECKS:-C01 C02 C03 C04 C05 C06 C07 C08 C09 C10 C11 C12 C13 C14 C15 C16 C17 C18 C19 C20}
+  # MATRIX_TARGET_ONLY=1: a seeded change is only run against the check of the property it was aimed
+  # at (the regression test of the checks themselves: each must still answer VIOLATION-with-input)
+  if [ -n "${MATRIX_TARGET_ONLY:-}" ] && [ "$target" != "benign" ]; then checks=$target; fi
+  for p in $checks; do
     r=$(HS_DEV_SKIP_PROOF=${MATRIX_SKIP_PROOF:-} HS_NO_SEARCH=1 ./check $p 2>&1 | grep VIOLATION | head -1)
     if [ -z "$r" ]; then res="quiet"; elif echo "$r" | grep -q no-failing-input-found; then res="ALARM-no-input"; else res="VIOLATION-with-input"; fi
     echo -e "$m\t$target\t$p\t$res" >> $out
